@@ -1,5 +1,7 @@
 package h
 
+import "github.com/vedadiyan/genql"
+
 func hasFault(q any) bool {
 	switch x := q.(type) {
 	case []any:
@@ -72,3 +74,120 @@ func checkC11(c Node) Verdict {
 }
 
 func init() { Replay["C11"] = checkC11 }
+
+// ---- statements outside the specification's AST: the invariant needs no model of their results ---------------------
+//
+// DocUnchanged (Engine.tla, Markers.tla) says one thing about every statement, whatever it returns: the caller's
+// document afterwards is the document before. For constructs the query AST of the specification does not cover (FUSE,
+// selectors with ranges and pipes in FROM, GROUP BY on nested paths, aliased dual, INTO joins ...) that is checked on
+// statement texts directly: one rich document, every text run twice (also as a retry of the same Query), deep comparison.
+
+var texts11 = []string{
+	"SELECT a FROM t GROUP BY a, a.c",
+	"SELECT o FROM solo GROUP BY o, o.zz",
+	"SELECT o FROM solo GROUP BY o.zz, o",
+	"SELECT x.o FROM solo x GROUP BY x.o, x.o.k.deeper",
+	"SELECT o, COUNT(*) AS c FROM solo GROUP BY o, o.k HAVING COUNT(*) > 0",
+	"SELECT o FROM t GROUP BY o, o.k",
+	"SELECT x.o FROM t x GROUP BY x.o, x.o.zz",
+	"SELECT o.k, COUNT(*) AS c FROM t GROUP BY o.k",
+	"SELECT FUSE(o), a FROM t",
+	"SELECT FUSE(o), * FROM t",
+	"SELECT FUSE(o) AS p, a, s FROM t WHERE a > 1",
+	"SELECT a, FUSE(o) FROM t ORDER BY a DESC",
+	"SELECT DEFAULTKEY(one) AS v, a FROM t",
+	"SELECT CASE WHEN lim > 5 THEN 'high' ELSE 'low' END AS level FROM dual d",
+	"SELECT lim + 1 AS v, (SELECT a FROM t WHERE a > 1) AS s FROM dual d",
+	"SELECT * FROM dual d WHERE EXISTS (SELECT * FROM t WHERE a > lim)",
+	"SELECT * FROM `pages[each:(0:2)]`",
+	"SELECT p FROM `pages[each:(1:end)]` WHERE p > 0",
+	"SELECT * FROM `pages[keep=>each:(0:1)]`",
+	"SELECT * FROM `pages[0:(0:2)]`",
+	"SELECT * FROM `t{a|string, s}`",
+	"SELECT * FROM `t[each].n[(0:1)]`",
+	"SELECT * FROM `mix=>pages`",
+	"SELECT * FROM `distinct=>t[each].n`",
+	"SELECT `n[(0:1)].p` AS p, `o{k|string}` AS ok FROM t",
+	"SELECT * FROM t x JOIN u y INTO z ON x.a = y.c",
+	"SELECT * FROM t x LEFT JOIN u y INTO z ON x.a >= y.c",
+	"SELECT * FROM t x JOIN u y USING (c)",
+	"SELECT * FROM t LEFT JOIN u y ON a >= y.c AND g < y.c",
+	"SELECT * FROM u y RIGHT JOIN t ON a = y.c AND g < y.c",
+	"SELECT a FROM t UNION SELECT c FROM u ORDER BY a DESC LIMIT 2",
+	"SELECT n FROM t ORDER BY n",
+	"SELECT o, n FROM t ORDER BY o DESC LIMIT 1, 2",
+	"SELECT DISTINCT o, n FROM t",
+	"SELECT ARRAY(n, o, a) AS v, UNWIND(ARRAY(n, n)) AS w FROM t",
+	"SELECT a, ASYNC.slow(a) AS v, SPINASYNC.slow(a) FROM t",
+	"SELECT a, ONCE.slow(a) AS v FROM t",
+	"SELECT a FROM t WHERE a IN (SELECT c FROM `<-u`) AND EXISTS (SELECT * FROM n WHERE p >= a)",
+	"WITH c AS (SELECT * FROM t ORDER BY a DESC), d AS (SELECT x.a FROM c x JOIN c y ON x.a = y.a) SELECT * FROM d UNION SELECT a FROM c",
+	"SELECT SUBSTR(s, 0, 1) AS v, CONCAT(s, a, o) AS w FROM t",
+	"SELECT * FROM pages",
+	"SELECT p FROM pages WHERE p > 1 ORDER BY p DESC",
+}
+
+func doc11() map[string]any {
+	row := func(a float64, s string, k float64, ps ...float64) map[string]any {
+		n := []any{}
+		for _, p := range ps {
+			n = append(n, map[string]any{"p": p})
+		}
+		return map[string]any{"a": a, "c": a, "g": float64(int(a) % 2), "s": s, "o": map[string]any{"k": k}, "one": map[string]any{"only": s}, "n": n}
+	}
+	page := func(ps ...float64) []any {
+		out := []any{}
+		for _, p := range ps {
+			out = append(out, map[string]any{"p": p})
+		}
+		return out
+	}
+	return map[string]any{
+		"lim":   float64(7),
+		"solo":  []any{row(4, "z", 5, 1)},
+		"t":     []any{row(1, "x", 1, 1, 2, 3), row(3, "y", 2), row(2, "x", 2, 5, 6, 7, 8)},
+		"u":     []any{map[string]any{"c": float64(3)}, map[string]any{"c": float64(1)}, map[string]any{"c": float64(9)}},
+		"pages": []any{page(1, 2, 3, 4), page(5, 6), page(7, 8, 9)},
+	}
+}
+
+func init() {
+	Drivers["C11:texts"] = func(emit func(Verdict)) {
+		for _, sql := range texts11 {
+			for _, variant := range []string{"plain", "json", "retry"} {
+				sig := []string{"text", "variant:" + variant}
+				v := Verdict{OK: true, SQL: sql, Sig: sig, Execs: 2, Nontrivial: true}
+				doc := doc11()
+				if variant == "json" {
+					doc = jsonDecoded(doc) // slices with spare capacity, as encoding/json builds them
+				}
+				pristine := DeepCopy(any(doc))
+				func() {
+					defer func() {
+						if p := recover(); p != nil {
+							v = fail("panic", sql, sig, "panic escaped the API: %v", p)
+						}
+					}()
+					q, err := genql.New(doc, sql)
+					if err == nil {
+						_, err = q.Exec()
+						if variant == "retry" {
+							q.Exec()
+						}
+					}
+					if !Equal(any(doc), pristine) {
+						v = fail("docmut", sql, sig, "the caller's document after a %s call: %s, before: %s", map[bool]string{true: "successful", false: "failed"}[err == nil], Canon(any(doc)), Canon(pristine))
+						return
+					}
+					// ... and after a second statement on the same document object
+					Run(doc, sql, false)
+					if !Equal(any(doc), pristine) {
+						v = fail("docmut", sql, sig, "the caller's document after two calls: %s, before: %s", Canon(any(doc)), Canon(pristine))
+					}
+				}()
+				v.Key, v.Case = sql+"/"+variant, Node{"sql": sql, "variant": variant}
+				emit(v)
+			}
+		}
+	}
+}
